@@ -440,10 +440,6 @@ fn validate_nodata_response(
                     Proof::Secure,
                     "servicing wildcard without closest encloser proof, but query parent name == SOA",
                 ),
-                (None, None, None) if Some(&cx.query.name) == cx.soa => (
-                    Proof::Secure,
-                    "no servicing wildcard, but query name == SOA",
-                ),
                 _ => (Proof::Bogus, "no valid servicing wildcard proof"),
             }
         }
